@@ -10,7 +10,7 @@ set_option autoImplicit false
 namespace TssVerif
 
 /-- Bezout invariant of `xgcdAux` -/
-theorem xgcdAux_bezout (n : Int) (a' : Int) : ∀ fuel (r0 r1 s0 s1 : Int),
+theorem xgcdAux_bezoutV (n : Int) (a' : Int) : ∀ fuel (r0 r1 s0 s1 : Int),
     (∃ t, r0 = s0 * a' + t * n) → (∃ t, r1 = s1 * a' + t * n) →
     ∃ t, (xgcdAux fuel r0 r1 s0 s1).1 = (xgcdAux fuel r0 r1 s0 s1).2 * a' + t * n := by
   intro fuel
@@ -66,14 +66,14 @@ theorem xgcdAux_gcd : ∀ (k fuel n0 n1 : Nat) (s0 s1 : Int), n1 < 2 ^ k → 2 *
         rw [Nat.gcd_comm (n0 % n1), ← Nat.gcd_rec, ← Nat.gcd_rec, Nat.gcd_comm]
 
 /-- **specification of `modInverse`**: any returned value is the inverse, reduced -/
-theorem modInverse_spec {a : Int} {n b : Nat} (h : modInverse a n = some b) :
+theorem modInverse_specV {a : Int} {n b : Nat} (h : modInverse a n = some b) :
     (a * b) % (n : Int) = 1 % (n : Int) ∧ b < n := by
   unfold modInverse at h
   split at h
   · simp at h
   · rename_i hn
     simp only at h
-    obtain ⟨t, ht⟩ := xgcdAux_bezout (n : Int) (a % n) (2 * n.log2 + 4) (n : Int) (a % n) 0 1
+    obtain ⟨t, ht⟩ := xgcdAux_bezoutV (n : Int) (a % n) (2 * n.log2 + 4) (n : Int) (a % n) 0 1
       ⟨1, by ring⟩ ⟨0, by ring⟩
     generalize hx : xgcdAux (2 * n.log2 + 4) (↑n) (a % ↑n) 0 1 = p at h ht
     obtain ⟨g, x⟩ := p
@@ -136,7 +136,7 @@ theorem modInverse_prime {q : Nat} (hq : q.Prime) {a : Int} (ha : a % (q : Int) 
     have := Nat.le_of_dvd (by omega) hd
     omega
   obtain ⟨b, hb⟩ := modInverse_isSome_of_coprime hq.ne_zero hc
-  exact ⟨b, hb, modInverse_spec hb⟩
+  exact ⟨b, hb, modInverse_specV hb⟩
 
 section
 variable {q : ℕ} [Fact q.Prime]
@@ -144,7 +144,7 @@ variable {q : ℕ} [Fact q.Prime]
 /-- in the field, the returned inverse is the inverse -/
 theorem modInverse_cast {a : Int} {b : Nat} (h : modInverse a q = some b) :
     ((b : ℕ) : ZMod q) = ((a : ℤ) : ZMod q)⁻¹ := by
-  obtain ⟨h1, _⟩ := modInverse_spec h
+  obtain ⟨h1, _⟩ := modInverse_specV h
   have h2 : ((a * b : ℤ) : ZMod q) = 1 := by
     have := (ZMod.intCast_eq_intCast_iff' (a * b) 1 q).2 h1
     simpa using this
